@@ -57,3 +57,15 @@ Example C06_both_let_go_frees_id :
   map o_res outs = [[1]; [0]; [0]; [0; 0; 0; 0; 7]; [0; 0; 80; 1; 97; 7]; [0; 2]; [0]; [0]; [0];
                     [0; 2; 1; 2]; [0; 0]; [0]; [0]; [0]; [1]; [0]; [0]; [0; 1; 0; 0; 7]; [0; 1; 81; 1; 98; 7]].
 Proof. vm_compute. auto 10. Qed.
+
+(* The multi-step clause "nothing of the old stream leaks into a stream that reuses its id" does
+   NOT hold when a frame of the earlier incarnation is still in flight at the moment the id is
+   redrawn: witness on the model, which follows the code there.  Open known finding
+   `id-reuse-stale-frame` (DESIGN.md section 6). *)
+From PV Require Import Mux.Sys Mux.Reuse.
+Theorem C06_stale_push_kills_new_stream :
+  exists os, leak_outs = Some os /\
+    nth_error leak_labels 16 = Some [15; 1; 1; 4] /\ option_map o_res (nth_error os 16) = Some [0; 0] /\
+    option_map o_res (nth_error os 17) = Some [0; 1] /\
+    option_map o_res (nth_error os 20) = Some [0; 0].
+Proof. exact stale_push_kills_new_stream. Qed.
